@@ -38,7 +38,7 @@ Event(ev) ==
       [] ev.ev = "ObsRc" -> (\A e \in 1 .. Len(ev.rc) : rc[e] = ev.rc[e]) /\ Same
       [] ev.ev = "ObsTimers" -> (\A k \in Keys : (timer[k] >= 0) <=> (k \in {ev.armed[i] : i \in 1 .. Len(ev.armed)})) /\ Same
       \* after the drain nothing may be left waiting for a timer that does not exist
-      [] ev.ev = "End" -> (Timeout > 0 => \A k \in Keys : buf[k] = <<>> /\ timer[k] = -1) /\ Same
+      [] ev.ev = "End" -> (Timed => \A k \in Keys : buf[k] = <<>> /\ timer[k] = -1) /\ Same
       [] OTHER -> FALSE
 
 TraceNext ==
